@@ -212,12 +212,18 @@ impl Schema {
         }
     }
 
+    /// Get a top-level field by its exact name. Unlike [`Self::field`] the name is not
+    /// parsed as a (quoted, dotted) path.
+    fn top_level_field(&self, name: &str) -> Option<&Field> {
+        self.fields.iter().find(|f| f.name == name)
+    }
+
     fn do_project<T: AsRef<str>>(&self, columns: &[T], err_on_missing: bool) -> Result<Self> {
         let mut candidates: Vec<Field> = vec![];
         for col in columns {
             let split = parse_field_path(col.as_ref())?;
             let first = split[0].as_str();
-            if let Some(field) = self.field(first) {
+            if let Some(field) = self.top_level_field(first) {
                 let split_refs: Vec<&str> = split[1..].iter().map(|s| s.as_str()).collect();
                 let projected_field = field.project(&split_refs)?;
                 if let Some(candidate_field) = candidates.iter_mut().find(|f| f.name == first) {
@@ -319,7 +325,7 @@ impl Schema {
     fn do_intersection(&self, other: &Self, ignore_types: bool) -> Result<Self> {
         let mut candidates: Vec<Field> = vec![];
         for field in other.fields.iter() {
-            if let Some(candidate_field) = self.field(&field.name) {
+            if let Some(candidate_field) = self.top_level_field(&field.name) {
                 candidates.push(candidate_field.do_intersection(field, ignore_types)?);
             }
         }
@@ -395,7 +401,7 @@ impl Schema {
                 });
             }
 
-            if let Some(self_field) = self.field(&field.name) {
+            if let Some(self_field) = self.top_level_field(&field.name) {
                 new_fields.push(self_field.project_by_field(field, on_type_mismatch)?);
             } else if matches!(on_missing, OnMissing::Error) {
                 return Err(Error::Schema {
@@ -418,7 +424,7 @@ impl Schema {
         })?;
         let mut fields = vec![];
         for field in self.fields.iter() {
-            if let Some(other_field) = other.field(&field.name) {
+            if let Some(other_field) = other.top_level_field(&field.name) {
                 if field.data_type().is_struct() {
                     if let Some(f) = field.exclude(other_field) {
                         fields.push(f)
@@ -597,7 +603,7 @@ impl Schema {
 
         let mut merged_fields: Vec<Field> = vec![];
         for mut field in self.fields.iter().cloned() {
-            if let Some(other_field) = other.field(&field.name) {
+            if let Some(other_field) = other.top_level_field(&field.name) {
                 // if both are struct types, then merge the fields
                 field.merge(other_field)?;
             }
@@ -1721,6 +1727,39 @@ mod tests {
     }
 
     use arrow_schema::DataType;
+
+    #[test]
+    fn test_top_level_names_are_not_parsed_as_paths() {
+        // top-level names that are not plain path segments: backticks, empty
+        let arrow_schema = ArrowSchema::new(vec![
+            ArrowField::new("a`b", ArrowDataType::Int32, false),
+            ArrowField::new("`c`", ArrowDataType::Int32, false),
+            ArrowField::new("d", ArrowDataType::Int32, false),
+        ]);
+        let mut schema = Schema::try_from(&arrow_schema).unwrap();
+        schema.set_field_id(None);
+
+        assert!(schema.exclude(&schema).unwrap().fields.is_empty());
+        assert_eq!(schema.intersection(&schema).unwrap(), schema);
+        assert_eq!(schema.merge(&schema).unwrap().fields.len(), 3);
+        for id in 0..3 {
+            let path = schema.field_path(id).unwrap();
+            let projected = schema.project(&[path]).unwrap();
+            assert_eq!(projected.field_ids(), vec![id]);
+        }
+        // a quoted segment names a top-level field, never a nested one
+        let nested = ArrowSchema::new(vec![ArrowField::new(
+            "a",
+            ArrowDataType::Struct(ArrowFields::from(vec![ArrowField::new(
+                "b",
+                ArrowDataType::Int32,
+                true,
+            )])),
+            true,
+        )]);
+        let nested = Schema::try_from(&nested).unwrap();
+        assert!(nested.project(&["`a.b`"]).is_err());
+    }
 
     #[test]
     fn test_schema_projection() {
